@@ -132,6 +132,12 @@ def _run_group(repo_copy, pkg, flags, hs):
                 continue
             st = "SUCCESSFUL" if r["status"] == "SUCCESSFUL" else "FAILED"
             fc = [l for l in r.get("failed_checks", "").splitlines() if l.startswith("Failed Checks")]
+            if st == "FAILED" and not fc:
+                # "VERIFICATION:- FAILED" without a failed check is CBMC itself failing (out of memory,
+                # crash): inconclusive, never a violation
+                results.append((h, {"status": "ERROR(cbmc failed without a failed check: out of memory / crash)", "wall_s": r.get("time", wall),
+                                    "failed_checks": "", "stubs": r.get("stubs", []), "tail": out[-800:]}))
+                continue
             if st == "FAILED" and fc and all("unwinding assertion" in l for l in fc) and not h.get("expect_fail"):
                 cmd2 = ["cargo", "kani", "-p", pkg, "--output-format=terse", "--harness", h["harness"], "--unwind", "30"] + list(flags)
                 out2, wall2, to2, rc2 = _run(cmd2, repo_copy, h.get("timeout", 300) + 120)
